@@ -45,7 +45,7 @@ def decode(data):
                 what = None
             else:
                 what = {}
-                for _ in range(fdp.ConsumeIntInRange(1, 3)):
+                for _ in range(fdp.ConsumeIntInRange(0, 3)):
                     what[fdp.PickValueInList(NAMES)] = fdp.PickValueInList(AMT_REL)
             ops.append(['release', fdp.ConsumeIntInRange(0, 5), what])
         else:
